@@ -34,7 +34,19 @@ RULE = ('A case is (scenario, schedule): client programs (sync/async requests, t
         'Session.run (thread W) and a scripted server under the deterministic scheduler (run-to-completion, depth-first with a '
         'pre-emption bound, seeded random schedules); takes through Manager.take_notification after connect; oracle: every notification '
         'sent behind the hello is returned once, in order, intact; trace validated against Model/ConnectWindow.v. real_live cases with '
-        'hello_with=j write the first j notifications in the same write as the server hello (free-running threads).')
+        'hello_with=j write the first j notifications in the same write as the server hello (free-running threads). '
+        '(e) real_ops - operations issued through Manager while received notifications wait untaken in the queue: step lists '
+        '(server burst of notifications / scripted replies taken in reads of a given size; take_notification(block=False) x j; '
+        'Manager.<operation>(args) in async mode or, in its own thread, sync mode; drain) on the real Manager / Session / parser; '
+        'the table of calls = create_subscription in every combination of filter (none, (subtree, x), (xpath, x), list, <filter> '
+        'text) x stream_name (none, NETCONF, other) x (no times, start_time, start_time + stop_time) + positional forms, 21 standard '
+        'operations (get, get_config, lock, unlock, edit_config, copy_config, delete_config, validate, commit, discard_changes, '
+        'cancel_commit, get_schema, kill_session, dispatch, rpc) and the vendor operations of the profile; deterministic family: '
+        'every profile x every call of the table, two or three calls per history (so second / third subscriptions), reply before / '
+        'after / in the same read as further notifications / all replies at the end, both framings; plus generated step lists. '
+        'Oracle: an independent FIFO (a notification enters when its last octet has been read, a take removes the head): every '
+        'take returns the head or None, an operation changes nothing, every reply reaches its own operation, no exception, no '
+        'errback, still connected, the final drain returns the rest once and in order.')
 ASSUMES = ['CPython executes the code between two instrumented synchronisation points atomically with respect to the other managed threads (GIL + cooperative scheduler)',
            'uuid4 message-ids are unique (fresh-id oracle of the LTS; a trace violating it is rejected by the model)',
            'threading.Event/Lock/queue.Queue/selectors behave as the instrumented stand-ins (tools/harness/sched.py)']
